@@ -158,8 +158,14 @@ func (r *Report) Finish() int {
 		"violations":  len(seen),
 	}
 	raw, _ := json.MarshalIndent(evd, "", " ")
-	os.MkdirAll(filepath.Join(Dir(), "evidence"), 0o755)
-	if err := os.WriteFile(filepath.Join(Dir(), "evidence", r.Property+".json"), raw, 0o644); err != nil {
+	// VERIF_EVIDENCE_DIR: runs against deliberately changed trees (tools/seedcheck.sh, tools/seedall.sh) write their
+	// evidence elsewhere, so that the committed evidence always comes from the unchanged tree
+	evdir := filepath.Join(Dir(), "evidence")
+	if d := os.Getenv("VERIF_EVIDENCE_DIR"); d != "" {
+		evdir = d
+	}
+	os.MkdirAll(evdir, 0o755)
+	if err := os.WriteFile(filepath.Join(evdir, r.Property+".json"), raw, 0o644); err != nil {
 		fmt.Fprintf(os.Stderr, "cannot write evidence: %v\n", err)
 		return 2
 	}
